@@ -261,14 +261,17 @@ impl Monitor {
         }
         if self.violations.len() >= 400 {
             // keep the file bounded; count the overflow on a catch-all entry
-            let e = self.violations.entry("__overflow__|overflow".into()).or_insert(Violation {
+            // (the class is kept, so that the overflow of a recorded finding is still recognised as that finding and
+            // the overflow of anything else is still reported as a violation of its own class; the first overflowing
+            // event of each class keeps its input as the witness)
+            let e = self.violations.entry(format!("__overflow__|{}", class)).or_insert(Violation {
                 monitor: self.name.clone(),
-                inst: "__overflow__".into(),
-                class: "overflow".into(),
-                input: Value::Null,
-                observed: Value::Null,
-                expected: Value::Null,
-                note: "more than 400 distinct violation signatures".into(),
+                inst: format!("__overflow__ (first: {})", inst),
+                class: class.to_string(),
+                input,
+                observed,
+                expected,
+                note: "more than 400 distinct violation signatures in this monitor; further instantiations of this class are counted here".into(),
                 count: 0,
             });
             e.count += 1;
